@@ -21,13 +21,25 @@ ClsE    == <<"asm", "blk">>
 \* tree R: the smallest test reactor (reactor, core, spent fuel pool, assembly, block, 7 components)
 ParentR == <<0, 1, 1, 2, 4, 5, 5, 5, 5, 5, 5, 5>>
 ClsR    == <<"r", "core", "sfp", "asm", "blk", "cmp", "cmp", "cmp", "cmp", "cmp", "cmp", "cmp">>
+\* tree F: block > fuel, clad, bond ; the bond's inner diameter is LINKED to the fuel's outer diameter
+ParentF == <<0, 1, 1, 1>>
+ClsF    == <<"blk", "cmp", "cmp", "cmp">>
+LinkF   == <<0, 0, 0, 2>>
+LinkNone == <<>>
 KeepsNone == {{}}
+\* exactly ONE of two same-named / same-role definitions
+KeepsOne  == {{}, {<<"cmp", "q">>}, {<<"blk", "q">>}}
+KeepsLink == {{}, {<<"cmp", "q">>}}
+NoUnset   == {}
+McUnset   == {<<"cmp", "q">>}       \* built value of cmp.q = unset (or a link): never assigned back
 
 McParOf   == [c \in {"r", "core", "sfp", "asm", "blk", "cmp"} |-> Par]
+QOnly     == [c \in {"r", "core", "sfp", "asm", "blk", "cmp"} |-> {"q"}]
 McAllCls  == {"r", "core", "sfp", "asm", "blk", "cmp"}
 McDbCls   == {"asm", "blk", "cmp"}      \* small instances: any detached root stands for the reactor
 RDbCls    == {"r"}
 RCopyCls  == {"asm"}
+BlkOnly   == {"blk"}
 \* the read-only family: public mutators that route through parameters (the adapter implements each name)
 McCallsOf == [c \in {"asm", "blk", "cmp"} |->
                 IF c = "cmp" THEN {"changeNDensByFactor", "setNumberDensities", "updateNumberDensities",
@@ -47,12 +59,14 @@ KeepsTwo   == {{}, {<<"blk", "q">>, <<"cmp", "q">>, <<"cmp", "p">>}}
 KeepsFull  == {{}, {<<"cmp", "p">>}, {<<"cmp", "q">>}, {<<"blk", "p">>}, {<<"blk", "q">>, <<"cmp", "q">>},
                {<<"asm", "p">>, <<"blk", "p">>, <<"cmp", "p">>}, {<<"asm", "q">>, <<"cmp", "p">>, <<"cmp", "q">>}}
 ActsAll    == {"Enter", "Exit", "Assign", "AssignRO", "SetCache", "SetGrid", "DeepCopy", "Pickle", "MakeReadOnly",
-               "CallRO", "WriteDb", "LoadDb", "LoadDbRO"}
+               "CallRO", "WriteDb", "LoadDb", "LoadDbRO", "ReadGrid"}
 ActsRO     == {"MakeReadOnly", "AssignRO", "CallRO", "DeepCopy", "Assign"}
 ActsDb     == {"WriteDb", "LoadDb", "LoadDbRO", "DeepCopy", "Pickle", "Assign", "AssignRO"}
 ActsDbR    == {"WriteDb", "LoadDb", "LoadDbRO", "DeepCopy"}
 ActsParams == {"Enter", "Exit", "Assign"}
-ActsGrid   == {"Enter", "Exit", "SetGrid", "SetCache"}
+ActsGrid   == {"Enter", "Exit", "SetGrid", "SetCache", "ReadGrid"}
+ActsLink   == {"Enter", "Exit", "Assign", "DeepCopy", "Pickle"}
+ActsLinkQ  == {"Enter", "Exit", "Assign", "DeepCopy"}
 ActsAsBuilt == {"Enter", "Exit", "SetGrid", "Pickle"}
 ActsCopy   == {"Enter", "Exit", "Assign", "AssignRO", "DeepCopy", "Pickle", "MakeReadOnly", "SetCache"}
 
@@ -64,5 +78,9 @@ ObsDb == [k \in {"parent", "cls", "sameSerialAs", "ro", "err"} |-> Obs[k]]
 VarsDb == [parent |-> Vars.parent, ro |-> Vars.ro, serial |-> Vars.serial, next |-> Vars.next, ident |-> Vars.ident,
            db |-> [has |-> db.has, objs |-> db.objs, max |-> db.max, serial |-> Vars.db.serial]]
 EmitDb == PrintT(ToJson([lvl |-> TLCGet("level"), from |-> VarsDb, act |-> act', to |-> VarsDb', obs |-> ObsDb']))
+\* linked dimensions: Component.backUp / restoreBackup take the links out of the collection and put them back, which
+\* flags the DEFINITIONS of the linked dimensions (class-level bookkeeping, not modelled): dass is not observed there
+ObsL  == [k \in (DOMAIN Obs) \ {"dass"} |-> Obs[k]]
+EmitL == PrintT(ToJson([lvl |-> TLCGet("level"), from |-> Vars, act |-> act', to |-> Vars', obs |-> ObsL']))
 Emit  == PrintT(ToJson([lvl |-> TLCGet("level"), from |-> Vars, act |-> act', to |-> Vars', obs |-> Obs']))
 =====================================================================================================
